@@ -350,11 +350,12 @@ func declAt(o callObs, i int) string {
 // ---- Run ----
 
 type observed struct {
-	Calls   []callObs         `json:"calls"`
-	Bases   map[string]int    `json:"bases,omitempty"`
-	LoadErr string            `json:"load_error,omitempty"`
-	Source  map[string]string `json:"source,omitempty"`
-	Swept   int               `json:"swept,omitempty"`
+	Calls     []callObs         `json:"calls"`
+	Bases     map[string]int    `json:"bases,omitempty"`
+	LoadErr   string            `json:"load_error,omitempty"`
+	FileOrder string            `json:"file_order,omitempty"`
+	Source    map[string]string `json:"source,omitempty"`
+	Swept     int               `json:"swept,omitempty"`
 }
 
 func (prop) Run(in json.RawMessage, scratch string) core.Result {
@@ -405,6 +406,7 @@ func runProg(inp input, scratch string) core.Result {
 			p.Calls[i].Entry = e
 		}
 	}
+	p.normalise()
 	files := p.files()
 	dir := filepath.Join(scratch, "mod")
 	for name, src := range files {
@@ -435,6 +437,33 @@ func runProg(inp input, scratch string) core.Result {
 		if sr.bases[pkgPath(pkgB)] >= sr.bases[pkgPath(pkgA)] {
 			res.GoViolations = append(res.GoViolations, "harness: file positions of package b are not below those of its importer a")
 		}
+	}
+	// positions inside a package are compared across files (an alternative found in a callee's body against the
+	// assignments of the caller's body): the order of the files in the FileSet is data of the loaded universe
+	// (go/packages parses the files of a package concurrently)
+	p.ranks = map[int]map[int]int{}
+	for _, pk := range []int{pkgB, pkgA} {
+		type fb struct{ rank, base int }
+		var fbs []fb
+		for k := 0; k < nFiles; k++ {
+			if _, printed := files[pkgName(pk)+"/"+fileName(pk, k)]; !printed {
+				continue
+			}
+			if b, ok := sr.bases[pkgPath(pk)+"/"+fileName(pk, k)]; ok {
+				fbs = append(fbs, fb{fileRank[k], b})
+			}
+		}
+		byBase := append([]fb{}, fbs...)
+		sort.Slice(byBase, func(i, j int) bool { return byBase[i].base < byBase[j].base })
+		sort.Slice(fbs, func(i, j int) bool { return fbs[i].rank < fbs[j].rank })
+		m := map[int]int{}
+		for i, x := range byBase {
+			m[x.rank] = fbs[i].rank // the i-th file by base takes the i-th rank in use
+			if x.rank != fbs[i].rank {
+				obs.FileOrder = "the files of a package are not in name order in the FileSet"
+			}
+		}
+		p.ranks[pk] = m
 	}
 	var ccs []string
 	for i, c := range p.Calls {
@@ -623,6 +652,60 @@ func tagsOf(p *Prog, mode string) ([]string, bool) {
 		}
 		if c.Entry == "sig" && p.Funcs[c.F].Iface {
 			tags["interface_method"] = true
+		}
+	}
+	if p.multiFile() {
+		tags["multi_file_package"] = true
+	}
+	if len(p.PkgCalls) > 0 {
+		tags["call_in_package_level_initialiser"] = true
+	}
+	// a package-level function named by a call in a file that sorts before / after the file declaring it
+	fileOf := map[int]int{} // table index (declared functions and the literals printed inside them) -> file
+	for i, f := range p.Funcs {
+		if !f.IsLit {
+			fileOf[i] = fileRank[clampFile(f.File)]
+		}
+	}
+	for changed := true; changed; {
+		changed = false
+		for a, m := range edges {
+			if fa, ok := fileOf[a]; ok {
+				for b := range m {
+					if _, known := fileOf[b]; !known && p.Funcs[b].IsLit {
+						fileOf[b], changed = fa, true
+					}
+				}
+			}
+		}
+	}
+	note := func(callerFile int, callee int) {
+		t := p.Funcs[callee]
+		if t.IsLit || t.Method || t.Iface || t.Prelude {
+			return
+		}
+		switch d := fileRank[clampFile(t.File)]; {
+		case callerFile < d:
+			tags["call_in_earlier_file_than_declaration"] = true
+			if literalOnly(t) && len(t.Res) > 0 {
+				tags["literal_only_function_called_in_earlier_file"] = true
+			}
+		case callerFile > d:
+			tags["call_in_later_file_than_declaration"] = true
+		}
+	}
+	for a, m := range edges {
+		if fa, ok := fileOf[a]; ok {
+			for b := range m {
+				if p.Funcs[b].Pkg == p.Funcs[a].Pkg {
+					note(fa, b)
+				}
+			}
+		}
+	}
+	for _, c := range p.PkgCalls {
+		if c.F >= 0 && c.F < len(p.Funcs) && p.Funcs[c.F].Pkg == c.Pkg {
+			note(fileRank[clampFile(c.File)], c.F)
 		}
 	}
 	var out []string
